@@ -139,12 +139,12 @@ def passes : List DRegion → List (List DRegion)
 
 open AdaptaVerif.Model.NudgeRegion in
 /-- all findings of the region tie for one case -/
-def regionFindings (c : Case) : List Finding × List String := Id.run do
+def regionFindings (c : Case) (exempt : Nat → Nat → Bool) : List Finding × List String := Id.run do
   let rs := parseRegions c
   let mut fs : List Finding := []
   let mut st : List String := []
   for r in rs do
-    let o := checkRegion r
+    let o := checkRegion r exempt
     fs := fs ++ o.findings
     st := st ++ o.stats
   for g in passes rs do
@@ -174,7 +174,13 @@ def checkCase (strict : List String) (c : Case) : CaseResult := Id.run do
   let mut diverged : Option String := none
   if hook then
     s := bump s "hook.cases"
-    let (fs, sts) := regionFindings c
+    -- connector ids are 100 + index of the `conn` line in every generator family
+    let rts := (c.get "route").toList.map (fun l => (nat! l[0]!, ptsFrom l 2 (nat! l[1]!)))
+    let exempt : Nat → Nat → Bool := fun a b =>
+      match lookup rts (a - 100), lookup rts (b - 100) with
+      | some ra, some rb => commonEndpoint ra rb
+      | _, _ => false
+    let (fs, sts) := regionFindings c exempt
     for k in sts do s := bump s k
     for f in fs do
       match f with
